@@ -70,9 +70,9 @@ LATE_STARTERS = ('late-starters', {'files': [('f0.c', 'abcdefghijklmnopqrs')], '
 def late_starters(ctx):
     """(a) with the registration message of a test delayed by 0.25 s (a schedule the real pool can produce: the message is a
     round trip to the manager process) the test that had just been started when the round was decided is never registered and
-    survives: the recorded finding `late-start-unregistered`.  (b) without any delay the window is a fraction of a millisecond:
-    three runs; a leak in EVERY run means the window has been made wide (a violation of its own), a leak in some of them is the
-    recorded finding showing up by itself."""
+    survives: the recorded finding `late-start-unregistered`.  (b) without any delay the window is a fraction of a millisecond
+    (a few per cent of the runs on a loaded machine): five runs; a leak in three or more of them means the window has been made
+    wide (a violation of its own), a leak in one or two is the recorded finding showing up by itself."""
     sc = LATE_STARTERS[1]
     o = realrun.run_real(sc, ctx.tmp, timeout=sc['timeout'], slow_registration=0.25)
     ctx.evaluations += 1
@@ -83,7 +83,7 @@ def late_starters(ctx):
         ctx.violation('late-start-unregistered', f'registration delayed by 0.25 s: pids {o.alive} still alive after the run', {'scenario': sc, 'kind': 'late', 'delay': 0.25})
     ctx.sample({'real_pool': 'late-starters, registration delayed', 'tests_started': len(o.started_pids), 'alive_after': o.alive})
     leaks = []
-    runs = 3
+    runs = 5
     for _ in range(runs):
         o = realrun.run_real(sc, ctx.tmp, timeout=sc['timeout'])
         ctx.evaluations += 1
@@ -93,8 +93,8 @@ def late_starters(ctx):
         leaks.append(list(o.alive))
     ctx.nontriv('real:late-starters')
     n = sum(1 for x in leaks if x)
-    if n == runs:
-        ctx.violation('process-leak:late-starters-every-run', f'real pool: a test started just before the round was decided survived in every one of {runs} runs '
+    if n >= 3:
+        ctx.violation('process-leak:late-starters-most-runs', f'real pool: a test started just before the round was decided survived in {n} of {runs} runs '
                       f'(pids {leaks}): it is not registered until well after its start', {'scenario': sc, 'kind': 'late'})
     elif n:
         ctx.violation('late-start-unregistered', f'a test started just before the round was decided survived in {n} of {runs} runs (pids {leaks})', {'scenario': sc, 'kind': 'late'})
@@ -277,5 +277,5 @@ LEVEL_TEXT = ('Proved: the folder bookkeeping of a round (every scheduled candid
               'and, with the genuine pebble pool and hanging / forking / self-killing tests, no recorded pid is alive afterwards.')
 LEVEL_NOTE = ('Partial by nature: that a directory is really gone and a process really dead are OS facts, observed not proved; '
               'pebble worker killing is outside the model; the window between Popen and the STARTED message is real (known finding '
-              'late-start-unregistered: reproduced every run by delaying the message; a leak in every undelayed run stays a violation). Trusted: Coq kernel, driver model, shim.')
+              'late-start-unregistered: reproduced every run by delaying the message; a leak in most undelayed runs stays a violation). Trusted: Coq kernel, driver model, shim.')
 TECHNIQUE = 'Rocq proof of the bookkeeping (permutation invariant, pid-set spec) + exit-path enumeration on the real TestManager + real-pool process/TMPDIR observation'
